@@ -336,6 +336,52 @@ func c15Targets() []namedTarget {
 		}
 		return &T{}
 	})
+	// an embedded struct in front of tagged fields (positions among the visible fields differ from positions in the struct)
+	add("*T{Emb;B tag y;C}", func() any {
+		type T struct {
+			Emb
+			B int `bcl:"y"`
+			C int
+		}
+		return &T{}
+	})
+	add("*T{Emb;A;B tag y}", func() any {
+		type T struct {
+			Emb
+			A int
+			B int `bcl:"y"`
+		}
+		return &T{}
+	})
+	// pointer and interface fields that already hold something (a nested block needs a struct destination)
+	add("*T{In *In set;X}", func() any {
+		type T struct {
+			In *In
+			X  int
+		}
+		return &T{In: &In{Name: "old", X: 5}}
+	})
+	add("*T{In any=&In;X}", func() any {
+		type T struct {
+			In any
+			X  int
+		}
+		return &T{In: &In{Name: "old", X: 5}}
+	})
+	add("*T{In any=In;X}", func() any {
+		type T struct {
+			In any
+			X  int
+		}
+		return &T{In: In{Name: "old", X: 5}}
+	})
+	add("*T{In **In set}", func() any {
+		type T struct {
+			In **In
+		}
+		p := &In{}
+		return &T{In: &p}
+	})
 	add("*T{X}", func() any {
 		type T struct{ X int }
 		return &T{}
@@ -732,6 +778,9 @@ func c15Exec(cs fw.Case, orderMatters bool) *fw.Fail {
 				sv := tv.Elem()
 				if sv.Kind() != reflect.Slice {
 					return "bad-target", fmt.Sprintf("slice binding into %s returned nil", sv.Kind())
+				}
+				if ek := sv.Type().Elem().Kind(); ek != reflect.Struct {
+					return "bad-target", fmt.Sprintf("slice binding into a slice of %s (not structs) returned nil", ek)
 				}
 				if sv.Len() != len(b.Value) {
 					return "dropped", fmt.Sprintf("slice binding of %d blocks left %d elements", len(b.Value), sv.Len())
